@@ -112,6 +112,9 @@ def c09(tier, seed):
             ("vamm1", tx("vamm1", "update_owner", "owner", dict(owner="newowner")), [("vamm1", "update_config", dict(spread=2)), ("vamm1", "set_open", dict(open=False)), ("vamm1", "update_owner", dict(owner="stranger"))]),
             ("vamm2", tx("vamm2", "update_owner", "owner", dict(owner="newowner")), [("vamm2", "set_open", dict(open=True)), ("vamm2", "set_open", dict(open=False))]),
             ("engine-owner", tx("engine", "update_config", "owner", dict(owner="newowner")), [("engine", "update_config", dict(liqfee=3)), ("engine", "set_pause", dict(pause=True)), ("engine", "add_whitelist", dict(address="tr3")), ("engine", "update_pauser", dict(pauser="stranger"))]),
+            ("engine-owner+param", tx("engine", "update_config", "owner", dict(owner="newowner", liqfee=4)), [("engine", "update_config", dict(liqfee=3)), ("engine", "update_config", dict(owner="stranger", mmr=4))]),
+            ("engine-owner+pools", tx("engine", "update_config", "owner", dict(owner="newowner", fpool="stranger", imr=20)), [("engine", "update_config", dict(liqfee=3))]),
+            ("vamm-owner-then-config", tx("vamm1", "update_owner", "owner", dict(owner="newowner")), [("vamm1", "update_config", dict(toll=1, spread=2, fluct=3))]),
             ("engine-pauser", tx("engine", "update_pauser", "pauser", dict(pauser="newowner")), [("engine", "set_pause", dict(pause=True)), ("engine", "add_whitelist", dict(address="tr3")), ("engine", "update_pauser", dict(pauser="stranger"))]),
             ("ifund", tx("ifund", "update_owner", "owner", dict(owner="newowner")), [("ifund", "add_vamm", dict(vamm="vamm2")), ("ifund", "remove_vamm", dict(vamm="vamm1")), ("ifund", "shutdown_vamms", {})]),
             ("fpool", tx("fpool", "update_owner", "owner", dict(owner="newowner")), [("fpool", "send_token", dict(amount=10, recipient="tr3")), ("fpool", "send_token", dict(amount=10, recipient="newowner")), ("fpool", "send_token", dict(amount=10, recipient="owner")), ("fpool", "remove_token", {})]),
@@ -179,13 +182,19 @@ def c14(tier, seed):
             r = rng.random()
             if r < 0.45:
                 ops.append(tx("ifund", "add_vamm", rng.choice(["owner", "owner", "owner", "stranger"]), dict(vamm=v)))
-            elif r < 0.75:
+            elif r < 0.68:
                 ops.append(tx("ifund", "remove_vamm", rng.choice(["owner", "owner", "stranger"]), dict(vamm=v)))
+            elif r < 0.8:
+                ops.append(tx(v, "set_open", "owner", dict(open=rng.random() < 0.4)))
             elif r < 0.9:
                 ops.append(query("ifund", "is_vamm", dict(vamm=v)))
             else:
                 ops.append(query("ifund", "get_all_vamm", {}))
         ops.append(query("ifund", "get_all_vamm", {}))
+        for vv in ("vamm1", "vamm2", "vamm3", "vamm4"):
+            ops.append(query("ifund", "is_vamm", dict(vamm=vv)))
+        if j % 2 == 0:
+            ops += [tx("ifund", "shutdown_vamms", "owner", {}), query("ifund", "get_all_vamm_status", {})]
         regs = [dict(registered=rng.random() < 0.5) for _ in range(4)]
         out.append(dict(id="c14-%d" % k, deploy=dep("cw20", vamms=regs), ops=ops))
         k += 1
@@ -327,6 +336,7 @@ def c16(tier, seed):
             "A2": close("tr2"),
             "Ared": opn("tr2", "buy", 100, 1000, funds=0),
             "Bred": opn("tr3", "sell", 50, 1000, funds=0),
+            "Brev": opn("tr3", "sell", 600, 1000, funds=600 if native else 0),
             "B": opn("tr3", "buy", 200, 1000, funds=200 if native else 0),
             "Lq": liq("liq", "tr1"),
             "Lopen": opn("liq", "buy", 200, 1000, funds=200 if native else 0),
@@ -347,6 +357,8 @@ def c16(tier, seed):
         for tail in (("A2",), ("A",), ("Ared",), ("N", "A2")):
             seqs.add(("Ared", "Lq") + tail)
             seqs.add(("B", "N", "Bred", "Lq", "B") + tail)
+            seqs.add(("B", "N", "Lq", "Brev") + tail)
+            seqs.add(("B", "N", "Lq", "Brev", "B") + tail)
             seqs.add(("A", "Lq", "PF") + tail)
             seqs.add(("Ared", "PF", "Lq", "PF") + tail)
         for plr in (0, 25):
@@ -737,6 +749,13 @@ def c10(tier, seed):
         for a in attacks:
             out.append(dict(id="c10-%d" % k, deploy=dep(coll), ops=base + [a, query("engine", "position", dict(vamm="vamm1", trader="tr1"))]))
             k += 1
+        # an account whose address is a trader's in upper case
+        for m, a in (("close_position", dict(vamm="vamm1", limit=0)), ("withdraw_margin", dict(vamm="vamm1", amount=10)),
+                     ("open_position", dict(vamm="vamm1", side="sell", margin=100, leverage=100, limit=0)),
+                     ("deposit_margin", dict(vamm="vamm1", amount=10))):
+            for who in ("upper:tr1", "upper:tr2"):
+                out.append(dict(id="c10-%d" % k, deploy=dep(coll), ops=base + [tx("engine", m, who, a), query("engine", "position", dict(vamm="vamm1", trader="tr1"))]))
+                k += 1
         # a Liquidate naming an address that differs from an under-margined trader's only by blanks / a suffix
         for plr in (0, 25):
             for alias in ("tr1+ ", "tr1+  ", "tr1+x", "tr1+\t"):
@@ -1252,6 +1271,22 @@ def c04prepaid(tier, seed):
                                close("tr1"), query("engine", "state", {}), block(901)] + tl + [query("engine", "state", {})]
                         out.append(dict(id="c04pp-%d" % k, deploy=dep(coll, engine=dict(plr=plr)), ops=ops))
                         k += 1
+    # ... and a SOLVENT victim (margin left after the liquidator's fee, no bad debt of its own) liquidated whole while
+    # the pre-payment is outstanding and the vault is liquid again
+    for coll in ("cw20", "native"):
+        native = coll == "native"
+        for side in ("buy", "sell"):
+            for lev3 in (230, 265, 300, 350, 420):
+                ops = [block(15), opn("tr1", side, 2000, 1000, funds=2000 if native else 0),
+                       opn("tr2", side, 2000, 1000, funds=2000 if native else 0),
+                       opn("tr3", side, 4000, lev3, funds=4000 if native else 0), block(15),
+                       close("tr1"), query("engine", "state", {}),
+                       tx("engine", "deposit_margin", "tr2", dict(vamm="vamm1", amount=10000), funds=10000 if native else 0),
+                       block(1200), dict(k="oracle_rel", v="vamm1", off=0, interval=1),
+                       query("engine", "margin_ratio", dict(vamm="vamm1", trader="tr3")),
+                       liq("liq", "tr3"), query("engine", "state", {}), close("tr3"), close("tr2")]
+                out.append(dict(id="c04pp-%d" % k, deploy=dep(coll, engine=dict(plr=0)), ops=ops))
+                k += 1
     return out
 
 def c05red(tier, seed):
@@ -1335,6 +1370,7 @@ def c02tw(tier, seed):
                     for tail in ("close", "liquidate", "reverse"):
                         ops = [block(15), opn("tr1", side, 6000, 100, funds=6000 if native else 0), block(1000),
                                opn("tr2", osd, push, 100, funds=push if native else 0),
+                               dict(k="flatten", s="tr1", v="vamm1", delta=delta, lim_off=(-1 if side == "buy" else 1), funds=(6000 + max(delta, 0)) if native else 0),
                                dict(k="flatten", s="tr1", v="vamm1", delta=delta, funds=(6000 + max(delta, 0)) if native else 0),
                                query("engine", "position", dict(vamm="vamm1", trader="tr1")), block(15)]
                         if tail == "close":
@@ -1429,9 +1465,167 @@ def c16pc(tier, seed):
                     k += 1
     return out
 
+
+def zeroeq(tier, seed):
+    """a position whose equity (margin + pnl - funding) is exactly zero (or one unit either side), closed by its owner
+    through ClosePosition, through an opposite order of exactly its value, reduced, liquidated"""
+    out = []
+    k = 0
+    for coll in ("cw20", "native"):
+        native = coll == "native"
+        for side in ("buy", "sell"):
+            pside = "sell" if side == "buy" else "buy"
+            for push in (4500, 6000):
+                for off in (0, 1, -1, 25):
+                    for tail in ("flatten", "close", "reduce", "liquidate", "flatten+1"):
+                        ops = [block(15), opn("tr1", side, 2500, 1000, funds=2500 if native else 0),
+                               opn("tr2", pside, push, 1000, funds=push if native else 0), block(901),
+                               dict(k="zero_equity", s="tr1", v="vamm1", off=off),
+                               query("engine", "position", dict(vamm="vamm1", trader="tr1"))]
+                        if tail == "flatten":
+                            ops += [dict(k="flatten", s="tr1", v="vamm1", delta=0)]
+                        elif tail == "flatten+1":
+                            ops += [dict(k="flatten", s="tr1", v="vamm1", delta=1)]
+                        elif tail == "close":
+                            ops += [close("tr1")]
+                        elif tail == "reduce":
+                            ops += [opn("tr1", pside, 500, 1000)]
+                        else:
+                            ops += [liq("liq", "tr1")]
+                        ops += [query("engine", "position", dict(vamm="vamm1", trader="tr1")), close("tr1"), close("tr2")]
+                        out.append(dict(id="zeroeq-%d" % k, deploy=dep(coll), ops=ops))
+                        k += 1
+    return out
+
+def twoliq(tier, seed):
+    """several liquidations on one vAMM inside one block (whole and partial, same and different liquidators), then
+    further liquidations and trades in the next block"""
+    out = []
+    k = 0
+    for coll in ("cw20", "native"):
+        native = coll == "native"
+        for plr in (0, 25):
+            for side in ("buy", "sell"):
+                pside = "sell" if side == "buy" else "buy"
+                for push in (5200, 8000):
+                    ops = [block(15), opn("tr1", side, 1500, 1000, funds=1500 if native else 0),
+                           opn("tr2", side, 1000, 1000, funds=1000 if native else 0),
+                           opn("tr3", side, 800, 1000, funds=800 if native else 0),
+                           opn("liq", pside, push, 1000, funds=push if native else 0), block(901),
+                           liq("liq", "tr1"), liq("liq", "tr2"), liq("sfx", "tr3"), liq("sfx", "tr1"),
+                           query("engine", "position", dict(vamm="vamm1", trader="tr2")),
+                           block(15), liq("liq", "tr1"), liq("liq", "tr2"), close("tr3"), close("liq")]
+                    out.append(dict(id="twoliq-%d" % k, deploy=dep(coll, engine=dict(plr=plr)), ops=ops))
+                    k += 1
+    return out
+
+def spike(tier, seed):
+    """a position liquidatable on its TWAP loss while a fresh spike has put it in profit at spot (partial liquidations
+    realise the spot pnl of the slice)"""
+    out = []
+    k = 0
+    for coll in ("cw20", "native"):
+        native = coll == "native"
+        for side in ("buy", "sell"):
+            pside = "sell" if side == "buy" else "buy"
+            for (plr, liqfee) in ((25, 2), (50, 1)):
+                for push in (3000, 4000, 5000):
+                    for sp in (8000, 14000, 20000):
+                        ops = [block(15), opn("tr1", side, 2500, 1000, funds=2500 if native else 0),
+                               opn("tr2", pside, push, 100, funds=push if native else 0), block(7200),
+                               opn("tr3", side, sp, 200, funds=sp if native else 0),
+                               dict(k="oracle_rel", v="vamm1", off=0, interval=1),
+                               query("engine", "margin_ratio", dict(vamm="vamm1", trader="tr1")),
+                               query("engine", "unrealized_pnl", dict(vamm="vamm1", trader="tr1", opt="spot_price")),
+                               liq("liq", "tr1"), query("engine", "position", dict(vamm="vamm1", trader="tr1")),
+                               block(15), liq("liq", "tr1"), close("tr1")]
+                        out.append(dict(id="spike-%d" % k, deploy=dep(coll, trader_bal=5000000, engine=dict(imr=10, mmr=10, plr=plr, liqfee=liqfee)), ops=ops))
+                        k += 1
+    return out
+
+
+def fundrnd(tier, seed):
+    """funding with non-round numbers: a position opened AFTER a settlement (non-zero checkpoint), further settlements,
+    and every charging operation in between (the charge is (cumulative - checkpoint) x size, truncated once)"""
+    out = []
+    k = 0
+    day = 86400
+    for coll in ("cw20", "native"):
+        native = coll == "native"
+        for side in ("buy", "sell"):
+            for (o1, o2, o3) in ((37, -53, 71), (-29, 83, -17), (113, 7, 59)):
+                for (m, lev) in ((733, 330), (1277, 270), (391, 1000)):
+                    f = lambda x: x if native else 0
+                    pf = tx("engine", "pay_funding", "stranger", dict(vamm="vamm1"))
+                    ops = [block(15), opn("tr2", "sell" if side == "buy" else "buy", 1913, 130, funds=f(1913)), block(3601),
+                           dict(k="oracle_rel", v="vamm1", off=o1), block(day), pf,
+                           opn("tr1", side, m, lev, funds=f(m)), block(3601),
+                           dict(k="oracle_rel", v="vamm1", off=o2), block(day), pf,
+                           tx("engine", "withdraw_margin", "tr1", dict(vamm="vamm1", amount=1)), block(3601),
+                           dict(k="oracle_rel", v="vamm1", off=o3), block(day), pf,
+                           opn("tr1", side, 211, 190, funds=f(211)), block(3601),
+                           dict(k="oracle_rel", v="vamm1", off=o1), block(day), pf,
+                           opn("tr1", "sell" if side == "buy" else "buy", 97, 310), block(day), pf, close("tr1"), close("tr2")]
+                    out.append(dict(id="fundrnd-%d" % k, deploy=dep(coll, vamms=[dict(period=day)]), ops=ops))
+                    k += 1
+    return out
+
+def c12wl(tier, seed):
+    """trading fees are owed by whitelisted traders too (the whitelist lifts the caps, nothing else)"""
+    out = []
+    k = 0
+    for coll in ("cw20", "native"):
+        native = coll == "native"
+        for (toll, spread) in ((5, 10), (1, 1)):
+            for wl in ("tr1", "tr2"):
+                ff = lambda m, lev: fee_funds(native, m, lev, toll, spread)
+                ops = [block(15), tx("engine", "add_whitelist", "owner", dict(address=wl)),
+                       opn("tr1", "buy", 2000, 300, funds=ff(2000, 300)), opn("tr2", "buy", 1000, 500, funds=ff(1000, 500)), block(15),
+                       opn("tr1", "sell", 500, 300, funds=(ff(500, 300) - 500) if native else 0),
+                       opn("tr1", "sell", 4000, 300, funds=ff(4000, 300)), block(15), close("tr1"), close("tr2")]
+                out.append(dict(id="c12wl-%d" % k, deploy=dep(coll, vamms=[dict(toll=toll, spread=spread)]), ops=ops))
+                k += 1
+    return out
+
+def poorwallet(tier, seed):
+    """twin scenarios with small wallets: orders that reduce or reverse a position name a margin the wallet no longer
+    holds (only the net amount is pulled / attached)"""
+    out = []
+    k = 0
+    for (toll, spread) in ((0, 0), (1, 1)):
+        for bal in (10000, 7000):
+            for side in ("buy", "sell"):
+                osd = "sell" if side == "buy" else "buy"
+                ops = [block(15), opn("tr1", side, 6000, 1000), opn("tr2", osd, 2000, 500), block(15),
+                       opn("tr1", osd, 10000, 100), opn("tr1", osd, 6000, 1000), opn("tr1", side, 9000, 100), close("tr1"), close("tr2")]
+                out.append(dict(id="poor-%d" % k, deploy=dep("cw20", trader_bal=bal, vamms=[dict(toll=toll, spread=spread)]), ops=ops))
+                k += 1
+    return out
+
+def c18feedlong(tier, seed):
+    """a long-running feed: 150 / 300 rounds for one key (a second key interleaved), then latest, n-rounds-back for every
+    n around the history length and the pruning-prone values, TWAPs reaching before the oldest rounds"""
+    out = []
+    for j, n in enumerate((150, 300)):
+        ops = []
+        t = 100000
+        for i in range(n):
+            ops.append(block(10))
+            t += 10
+            ops.append(tx("feed", "append_price", "owner", dict(key="ETH", price=1000 + (i * 7) % 90, t=t)))
+            if i % 50 == 0:
+                ops.append(tx("feed", "append_price", "owner", dict(key="BTC", price=2000 + i, t=t)))
+        ops.append(query("feed", "get_price", dict(key="ETH")))
+        for nb in (0, 1, 2, 100, 127, 128, 129, n - 2, n - 1, n, n + 1):
+            ops.append(query("feed", "get_previous_price", dict(key="ETH", n=nb)))
+        for iv in (10, 500, 1270, 1280, 1500, n * 10 - 10, n * 10, n * 10 + 500, 100000):
+            ops.append(query("feed", "get_twap_price", dict(key="ETH", interval=iv)))
+        out.append(dict(id="c18feedlong-%d" % j, deploy=dep("cw20", feed="real", vamms=[{}, {}]), ops=ops))
+    return out
+
 FAMILIES = ["c02lp", "c04", "c04r", "c04p", "c05", "c06", "c06f", "c07", "c08", "c10", "c16", "c17", "c03",
             "zsr", "zsrliq", "attached", "fundzero", "c07edge", "c14f", "c12hi", "c15sub", "selfliq", "c13flat",
-            "dustliq", "fundbig", "fundempty", "c06t", "closelim", "c17q", "c04prepaid", "c05red", "liqfees", "c02tw", "wdrel", "c15fund", "c16pc"]
+            "dustliq", "fundbig", "fundempty", "c06t", "closelim", "c17q", "c04prepaid", "c05red", "liqfees", "c02tw", "wdrel", "c15fund", "c16pc", "zeroeq", "twoliq", "spike", "fundrnd", "c12wl"]
 
 def pool(tier, seed, cap=200, exclude=(), only_cw20=False):
     """a seeded sample across ALL scenario families: every engine property is also judged on the inputs that
@@ -1470,12 +1664,12 @@ def for_property(pid, tier, seed):
         out = [("c20config", c20(tier, seed))]
     if pid == "C08":
         out = [("c08sweeps", c08(tier, seed)), ("c06liq", c06(tier, seed)), ("c07vault", c07(tier, seed)),
-               ("selfliq", selfliq(tier, seed)), ("attached", attached(tier, seed)), ("zsrliq", zsrliq(tier, seed)), ("closelim", closelim(tier, seed))]
+               ("selfliq", selfliq(tier, seed)), ("attached", attached(tier, seed)), ("zsrliq", zsrliq(tier, seed)), ("closelim", closelim(tier, seed)), ("twoliq", twoliq(tier, seed)), ("zeroeq", samp(zeroeq(tier, seed), 80, seed))]
     if pid == "C16":
         out = [("c16orderings", c16(tier, seed)), ("c06liq", c06(tier, seed)), ("zsrliq", zsrliq(tier, seed)), ("selfliq", selfliq(tier, seed)), ("c16pc", c16pc(tier, seed))]
     if pid == "C03":
         out = [("c03fpool", c03(tier, seed)), ("c08sweeps", c08(tier, seed)), ("attached", attached(tier, seed)),
-               ("selfliq", selfliq(tier, seed)), ("c12hi", c12hi(tier, seed)), ("dustliq", dustliq(tier, seed)), ("liqfees", liqfees(tier, seed))]
+               ("selfliq", selfliq(tier, seed)), ("c12hi", c12hi(tier, seed)), ("dustliq", dustliq(tier, seed)), ("liqfees", liqfees(tier, seed)), ("spike", spike(tier, seed)), ("twoliq", twoliq(tier, seed))]
     if pid == "C05":
         out = [("c05lev", c05(tier, seed)), ("c08sweeps", c08(tier, seed)), ("attached", attached(tier, seed)), ("fundzero", fundzero(tier, seed)),
                ("c05reduce", c05red(tier, seed)), ("fundbig", fundbig(tier, seed)), ("wdrel", wdrel(tier, seed))]
@@ -1484,24 +1678,25 @@ def for_property(pid, tier, seed):
                ("c07vault", c07(tier, seed)), ("c08sweeps", c08(tier, seed)), ("c16orderings", c16(tier, seed)),
                ("zsr", samp(zsr(tier, seed), n, seed)), ("zsrliq", zsrliq(tier, seed)), ("selfliq", selfliq(tier, seed)), ("c07edge", c07edge(tier, seed)),
                ("dustliq", dustliq(tier, seed)), ("c06t", c06t(tier, seed)), ("closelim", samp(closelim(tier, seed), n, seed)),
-               ("liqfees", samp(liqfees(tier, seed), n, seed)), ("c02tw", samp(c02tw(tier, seed), n, seed))] + ([("c06long", c06long(tier, seed))] if pid in ("C06", "C07") else [])
+               ("liqfees", samp(liqfees(tier, seed), n, seed)), ("c02tw", samp(c02tw(tier, seed), n, seed)),
+               ("zeroeq", zeroeq(tier, seed)), ("twoliq", twoliq(tier, seed)), ("spike", spike(tier, seed)), ("c04prepaid", c04prepaid(tier, seed))] + ([("c06long", c06long(tier, seed))] if pid in ("C06", "C07") else [])
     if pid == "C10":
         out = [("c10alias", c10(tier, seed)), ("c08sweeps", c08(tier, seed)), ("c16orderings", c16(tier, seed)), ("c07vault", c07(tier, seed)),
                ("zsrliq", zsrliq(tier, seed)), ("zsr", samp(zsr(tier, seed), n // 2, seed))]
     if pid in ("C12", "C04"):
         out = [("c04reverse", c04r(tier, seed)), ("c04partial", c04p(tier, seed)), ("c04funding", c04(tier, seed)), ("c08sweeps", c08(tier, seed)),
                ("c16orderings", c16(tier, seed)), ("c07vault", c07(tier, seed)), ("c12hi", c12hi(tier, seed)), ("fundzero", fundzero(tier, seed)),
-               ("zsr", samp(zsr(tier, seed), n // 2, seed)), ("fundbig", fundbig(tier, seed)), ("c03ptr", c03(tier, seed)), ("c04prepaid", c04prepaid(tier, seed)), ("fundempty", fundempty(tier, seed)), ("liqfees", samp(liqfees(tier, seed), n // 2, seed)),
+               ("zsr", samp(zsr(tier, seed), n // 2, seed)), ("fundbig", fundbig(tier, seed)), ("c03ptr", c03(tier, seed)), ("c04prepaid", c04prepaid(tier, seed)), ("zeroeq", zeroeq(tier, seed)), ("c12wl", c12wl(tier, seed)), ("fundempty", fundempty(tier, seed)), ("liqfees", samp(liqfees(tier, seed), n // 2, seed)),
                ("closelim", samp(closelim(tier, seed), n // 2, seed))]
     if pid == "C17":
         out = [("c17stale", c17(tier, seed)), ("closelim", closelim(tier, seed)), ("c17quote", c17q(tier, seed))]
     if pid == "C11":
         out = [("c04partial", c04p(tier, seed)), ("c04funding", c04(tier, seed)), ("c06funding", c06f(tier, seed)), ("fundzero", fundzero(tier, seed)),
-               ("c18long", c18long(tier, seed)[-1:]), ("fundempty", fundempty(tier, seed)), ("fundbig", fundbig(tier, seed))]
+               ("c18long", c18long(tier, seed)[-1:]), ("fundempty", fundempty(tier, seed)), ("fundbig", fundbig(tier, seed)), ("fundrnd", fundrnd(tier, seed))]
     if pid == "C15":
         out = [("c15sub", c15sub(tier, seed)), ("c07edge", c07edge(tier, seed)), ("closelim", closelim(tier, seed)), ("c15fund", c15fund(tier, seed))]
     if pid == "C18":
-        out = [("c18long", c18long(tier, seed)), ("c15sub", c15sub(tier, seed)), ("c15fund", c15fund(tier, seed))]
+        out = [("c18long", c18long(tier, seed)), ("c15sub", c15sub(tier, seed)), ("c15fund", c15fund(tier, seed)), ("c18feedlong", c18feedlong(tier, seed))]
     if pid in ENGINE_PROPS:
         # every engine property is also judged on a sample of all other families
         out.append(("pool", pool(tier, seed, cap=220 if q else 4000)))
